@@ -145,6 +145,12 @@ def run_shard(spec, R):
         if c["method"].startswith("bregman") and c["id"] % 8 == 4:
             extra = {**extra, "L": [2.0, 0.5][(c["id"] // 8) % 2]}  # Bregman penalty other than the default 1
         num_iter = 12 if c["tight"] else 6
+        if c["method"].startswith("bregman") and backend in ("cg", "amg") and c["id"] % 4 == 2 and not lab_scale_cg:
+            # an inexact inner solver, a mass-conservation tolerance far below what it delivers, loose other tolerances:
+            # the run may stop early only when all documented criteria hold
+            extra = {**extra, "tol_residual": 1e-14, "tol_increment": 1e-2, "tol_distance": 1e-2, "linear_solver_options": {"rtol": 1e-8, "atol": 1e-8, "maxiter": 500}}
+            num_iter = 25
+            R.count("strict_residual_tolerance_with_inexact_solver")
         verbose = c["id"] % 6 == 1
         if verbose:
             # progress output switched on (it goes to the worker's log); with the distance criterion as the only
